@@ -1,10 +1,73 @@
 #!/usr/bin/env python3
-"""setup self-test: solvers importable, must-fail obligation is refuted, must-pass is proved."""
+"""setup self-test (MANIFEST.setup_cmd): the solver works, and the verifier itself is neither vacuous nor blind.
+
+1. z3 refutes a contradiction and satisfies a satisfiable formula.
+2. a function of the CURRENT /repo verifies against its contract (must pass);
+3. the same function in a scratch copy of the model directory with a deliberately broken body must NOT verify
+   (two mutations, each a regression test for an engine rule that was once unsound or blind):
+     - `if x is not None:` on an optional list rewritten to `if x:`            (truthiness of Opt[List], seed C04-1)
+     - the capacity test of can_put flipped from `>` to `<`                       (a wrong result must break `result == spec`)
+The scratch copy lives in a temporary directory that is removed before the script ends; /repo is only read."""
+import os
+import shutil
+import subprocess
 import sys
+import tempfile
+
 import z3
+
+ROOT = os.path.dirname(os.path.dirname(os.path.abspath(__file__)))
 x = z3.Int("x")
 s = z3.Solver(); s.add(x > 0, x < 0)
 assert s.check() == z3.unsat
 s = z3.Solver(); s.add(x > 0)
 assert s.check() == z3.sat
-print("selftest ok: z3", z3.get_version_string())
+
+REPO = os.environ.get("PYVC_REPO", "/repo")
+
+
+def verify(qual, repo):
+    env = dict(os.environ, PYVC_REPO=repo, PYTHONHASHSEED="0")
+    p = subprocess.run([sys.executable, "-m", "pyvc.run", qual, "--timeout", "8000"], cwd=ROOT, env=env, capture_output=True, text=True, timeout=900)
+    last = [l for l in p.stdout.splitlines() if l.startswith("undischarged:")]
+    if not last:
+        raise SystemExit("selftest: verifier produced no verdict for %s\n%s\n%s" % (qual, p.stdout[-600:], p.stderr[-600:]))
+    gen = [l for l in p.stdout.splitlines() if l.startswith("generated ")]
+    n = int(gen[0].split()[1]) if gen else 0
+    return n, int(last[0].split(":")[1])
+
+
+def mutated_copy(rel, old, new):
+    d = tempfile.mkdtemp(prefix="pyvc_selftest_")
+    shutil.copytree(os.path.join(REPO, "pDESy", "model"), os.path.join(d, "pDESy", "model"))
+    p = os.path.join(d, "pDESy", "model", rel)
+    text = open(p).read()
+    if text.count(old) < 1:
+        shutil.rmtree(d)
+        return None          # the source no longer has this shape: the regression test does not apply
+    open(p, "w").write(text.replace(old, new, 1))
+    return d
+
+
+results = []
+for qual in ("BaseTask.can_add_resources", "BaseWorkplace.can_put"):
+    n, bad = verify(qual, REPO)
+    results.append("%s: %d obligations, %d open" % (qual, n, bad))
+    if n == 0:
+        raise SystemExit("selftest: no obligations generated for " + qual)
+MUT = [("BaseTask.can_add_resources", "base_task.py", "if self.fixing_allocating_worker_id_list is not None:", "if self.fixing_allocating_worker_id_list:"),
+       ("BaseWorkplace.can_put", "base_workplace.py", "if self.get_available_space_size() > component.space_size - error_tol:",
+        "if self.get_available_space_size() < component.space_size - error_tol:")]
+for qual, rel, old, new in MUT:
+    d = mutated_copy(rel, old, new)
+    if d is None:
+        results.append("%s: mutation not applicable to the current source (skipped)" % qual)
+        continue
+    try:
+        n, bad = verify(qual, d)
+    finally:
+        shutil.rmtree(d, ignore_errors=True)
+    if bad == 0:
+        raise SystemExit("selftest FAILED: the broken %s still verifies - the verifier is blind to this change" % qual)
+    results.append("%s (broken on purpose): %d of %d obligations fail, as they must" % (qual, bad, n))
+print("selftest ok: z3 %s; %s" % (z3.get_version_string(), "; ".join(results)))
